@@ -112,6 +112,25 @@ func sortSliceLess(body ast.Node) string {
 	return res
 }
 
+// stmtsContaining lists the simple statements (expression / assignment) of body whose text contains sub.
+func stmtsContaining(body ast.Node, sub string) []string {
+	var out []string
+	if body == nil {
+		return out
+	}
+	ast.Inspect(body, func(n ast.Node) bool {
+		switch st := n.(type) {
+		case *ast.ExprStmt, *ast.AssignStmt:
+			if t := text(st); containsStr(t, sub) && !containsStr(t, "func(") {
+				out = append(out, t)
+				return false
+			}
+		}
+		return true
+	})
+	return out
+}
+
 func prefixed(p string, xs []string) []string {
 	out := make([]string, len(xs))
 	for i, x := range xs {
@@ -146,6 +165,17 @@ func factsProxy() {
 		firstIfCond(body(fn(bt, "batchableServer", "Send")), "batchSize"))
 	emitStr("seriesLimitCond", "pkg/store/proxy.go ProxyStore.Series: the limit test of the response loop",
 		firstIfCond(body(fn(px, "ProxyStore", "Series")), "r.Limit"))
+
+	// ---- C06: where the partial-response strategy is consulted, and how a failing Recv is reported
+	seriesFn := body(fn(px, "ProxyStore", "Series"))
+	emitStr("proxyOpenErrContinueCond", "pkg/store/proxy.go ProxyStore.Series: when a failing Series() call of a store is only a warning",
+		firstIfCond(seriesFn, "!r.PartialResponseDisabled"))
+	emitStr("proxyAbortOnWarningCond", "pkg/store/proxy.go ProxyStore.Series: when a warning response ends the request",
+		firstIfCond(seriesFn, "resp.GetWarning()"))
+	var rw []string
+	rw = append(rw, prefixed("lazy:", stmtsContaining(body(fn(pmg, "", "newLazyRespSet")), "NewWarnSeriesResponse(rerr)"))...)
+	rw = append(rw, prefixed("eager:", stmtsContaining(body(fn(pmg, "", "newEagerRespSet")), "NewWarnSeriesResponse(rerr)"))...)
+	emitList("recvErrorToWarning", "pkg/store/proxy_merge.go: what both receivers do with a failing Recv", rw)
 
 	// ---- C17: who puts the shard buffer back, how often, and how the byte pool tests its budget
 	si := parse("pkg/store/storepb/shard_info.go")
